@@ -475,3 +475,42 @@ func RetResults(ret *ssa.Return) []ssa.Value {
 	}
 	return out
 }
+
+// LoopBodies returns the natural loops of fn: header -> set of blocks of the loop (merged over back edges).
+func LoopBodies(fn *ssa.Function) map[*ssa.BasicBlock]map[*ssa.BasicBlock]bool {
+	bodies := map[*ssa.BasicBlock]map[*ssa.BasicBlock]bool{}
+	for _, n := range fn.Blocks {
+		for _, h := range n.Succs {
+			if !BlockDominates(h, n) {
+				continue
+			}
+			body := bodies[h]
+			if body == nil {
+				body = map[*ssa.BasicBlock]bool{h: true}
+				bodies[h] = body
+			}
+			stack := []*ssa.BasicBlock{n}
+			for len(stack) > 0 {
+				x := stack[len(stack)-1]
+				stack = stack[:len(stack)-1]
+				if body[x] {
+					continue
+				}
+				body[x] = true
+				stack = append(stack, x.Preds...)
+			}
+		}
+	}
+	return bodies
+}
+
+// InnermostLoop returns the body of the smallest natural loop containing b (nil if none).
+func InnermostLoop(fn *ssa.Function, b *ssa.BasicBlock) map[*ssa.BasicBlock]bool {
+	var best map[*ssa.BasicBlock]bool
+	for _, body := range LoopBodies(fn) {
+		if body[b] && (best == nil || len(body) < len(best)) {
+			best = body
+		}
+	}
+	return best
+}
